@@ -144,9 +144,9 @@ pub fn check_sort(g: &Grammar, text: &str) -> Result<Vec<(&'static str, String)>
         Loaded::Panic(p) => return Err(format!("panic: {p}")),
     }
     // (4) idempotent
-    let dbg1 = format!("{f:?}");
+    let dbg1 = vcore::dbgtree::canon_debug(&format!("{f:?}"));
     guard(|| f.sort()).map_err(|p| format!("panic: {p}"))?;
-    if format!("{f:?}") != dbg1 {
+    if vcore::dbgtree::canon_debug(&format!("{f:?}")) != dbg1 {
         out.push(("second-sort-changes-model", "sorting a second time changes the model".into()));
     }
     let t3 = write(&f).map_err(|p| format!("panic: {p}"))?;
